@@ -82,6 +82,7 @@ def run(S):
     leafs(S, D)
     inclusion_tables(S, D)
     stats_and_build(S, D, N)
+    send_limits(S, D, 1 if S.tier == 'quick' else 2)
 
 
 def leafs(S, D):
@@ -481,3 +482,205 @@ def inclusion_tables(S, D):
             'an outbound HTLC is debited from us in the predicted balance exactly when it is excluded from the predicted set and succeeded', bindings=pb, bounds='4 states x 2 outcomes x 2 sides')
     S.no_panic('C01.d.closures.nopanic', E2, [], 'prediction filters are total')
     S.witness('C01.d.witness', E2, [], z3.And(cin, cout))
+
+
+# ---- C01.e: reported send limits are sound against the peer's acceptance checks -------------------
+def send_limits(S, D, N):
+    """quiescent mirrored state: every pending HTLC is committed on both sides, no fee update in
+    flight.  For b = get_available_balances(our view) and every amount a in [b.min, b.limit], the checks
+    the peer runs in validate_update_add_htlc - re-expressed over the same real get_next_commitment_stats
+    with holder/counterparty swapped - all pass."""
+    E = S.engine()
+    mem = {}
+    fb = S.fn('get_available_balances', nargs=9)
+    fs = S.fn('get_next_commitment_stats', nargs=11)
+    funder = E.sym('funder', 'bool')
+    V, Sv, fr, maxdust = E.sym('V', 'u64'), E.sym('S', 'u64'), E.sym('f', 'u32'), E.sym('maxdust', 'u64')
+    ct, tag = chan_type(E, mem)
+    n = z3.Int('n')
+    E.assume(z3.And(n >= 0, n <= N))
+    outb = [z3.Bool('h%d.outbound' % i) for i in range(N)]
+    amt = [E.int_sym('h%d.amount' % i, 'u64').t for i in range(N)]
+    HD = D.struct_fields('HTLCAmountDirection')
+
+    def dirs(extra=None, mirror=False):
+        el = [X.Adt('HTLCAmountDirection', {HD.index('outbound'): X.B(z3.Not(outb[i]) if mirror else outb[i]), HD.index('amount_msat'): X.I(amt[i], 'u64')}) for i in range(N)]
+        pres = [n > i for i in range(N)]
+        if extra is not None:
+            el.append(extra)
+            pres.append(True)
+        seq = X.Seq(el, None, 'HTLCAmountDirection', pres=pres)
+        c = E.new_cell()
+        mem[c] = seq
+        return X.Ref(c)
+    CC = D.struct_fields('ChannelConstraints')
+    names = ['holder_dust_limit_satoshis', 'counterparty_selected_channel_reserve_satoshis', 'counterparty_dust_limit_satoshis',
+             'holder_selected_channel_reserve_satoshis', 'counterparty_htlc_minimum_msat', 'counterparty_max_htlc_value_in_flight_msat', 'counterparty_max_accepted_htlcs']
+    cv = {nm: E.sym('c.' + nm, 'u64') for nm in names}
+    cons = X.Adt('ChannelConstraints', {CC.index(nm): cv[nm] for nm in names})
+    none32 = X.En('Option', 0, {})
+    bal = S.call(E, fb, [funder, V, Sv, dirs(), fr, none32, maxdust, cons, ct], mem)
+    AB = D.struct_fields('AvailableBalances')
+    limit = bal.fs[AB.index('next_outbound_htlc_limit_msat')].t
+    minimum = bal.fs[AB.index('next_outbound_htlc_minimum_msat')].t
+    bal_panics = list(E.panics)
+
+    a = E.sym('a', 'u64')
+    NS = D.struct_fields('NextCommitmentStats')
+
+    def stats(local, is_funder, to_holder, htlcs_ref, dust):
+        r = S.call(E, fs, [X.B(local), is_funder, V, to_holder, htlcs_ref, X.I(0, 'usize'), fr, X.B(False), none32, dust, ct], mem)
+        ok = X.zint(r.d) == 0
+        st = r.vs[0][0]
+        return ok, st.fs[NS.index('holder_balance_msat')].t, st.fs[NS.index('counterparty_balance_msat')].t
+    hdust, cdust = cv['holder_dust_limit_satoshis'], cv['counterparty_dust_limit_satoshis']
+    # current state is itself valid on both commitments (we signed / accepted them)
+    cur_l_ok, _, _ = stats(True, funder, Sv, dirs(), hdust)
+    cur_r_ok, _, _ = stats(False, funder, Sv, dirs(), cdust)
+    # peer's view with the candidate: the peer is the holder, roles / dust limits swapped
+    peer_funder = X.B(z3.Not(X.zbool(funder.t)))
+    peer_S = X.I(V.t * 1000 - Sv.t, 'u64')
+    cand_in = X.Adt('HTLCAmountDirection', {HD.index('outbound'): X.B(False), HD.index('amount_msat'): a})
+    p_remote_ok, p_remote_holder, p_remote_cp = stats(False, peer_funder, peer_S, dirs(cand_in, mirror=True), hdust)   # our commitment, seen by the peer
+    p_local_ok, _, _ = stats(True, peer_funder, peer_S, dirs(cand_in, mirror=True), cdust)                             # the peer's own commitment
+    out_total = sum([z3.If(z3.And(n > i, outb[i]), amt[i], 0) for i in range(N)])
+    in_total = sum([z3.If(z3.And(n > i, z3.Not(outb[i])), amt[i], 0) for i in range(N)])
+    out_count = sum([z3.If(z3.And(n > i, outb[i]), 1, 0) for i in range(N)])
+    res_peer_on_us = cv['counterparty_selected_channel_reserve_satoshis'].t   # reserve the peer requires of us
+    pre = [V.t <= SUPPLY_SAT, V.t >= 1000, Sv.t <= V.t * 1000, z3.Implies(tag == 2, fr.t == 0),
+           hdust.t == 354, cdust.t >= 354, cdust.t <= 10000,   # LDK's own dust limit is the constant MIN_CHAN_DUST_LIMIT_SATOSHIS
+
+           cv['counterparty_selected_channel_reserve_satoshis'].t <= V.t, cv['holder_selected_channel_reserve_satoshis'].t <= V.t,
+           cv['counterparty_max_accepted_htlcs'].t <= 483,
+           Sv.t - out_total >= 0, V.t * 1000 - Sv.t - in_total >= 0, cur_l_ok, cur_r_ok] + [x <= V.t * 1000 for x in amt]
+    in_range = z3.And(a.t >= minimum, a.t <= limit, a.t >= 1)
+    case = [z3.And(tag == k, X.zbool(funder.t) == fb_) for k in range(3) for fb_ in (True, False)]
+    flat = []
+    sy = [z3.Bool('o.h%d.outbound' % i) for i in range(N)]
+    for i in range(N):
+        E.assume(sy[i] == outb[i])
+        flat += [sy[i], amt[i]]
+    clist = [cv[nm].t for nm in names]
+    b_bal = Binding('get_available_balances', [funder.t, V.t, Sv.t, n] + flat + [fr.t, z3.IntVal(0), z3.IntVal(0), maxdust.t] + clist + [tag],
+                    [bal.fs[AB.index(k)].t for k in ['inbound_capacity_msat', 'outbound_capacity_msat', 'next_outbound_htlc_limit_msat', 'next_outbound_htlc_minimum_msat', 'dust_exposure_msat', 'next_splice_out_maximum_sat']],
+                    panic=z3.Or(*[X.zbool(p[0]) for p in bal_panics]) if bal_panics else False, line_fn=htlc_line(3, 3, N, None))
+    # peer-side stats call, mirrored list + candidate (as an inbound HTLC of the peer)
+    mflat = []
+    msy = [z3.Bool('o.m%d.outbound' % i) for i in range(N)]
+    for i in range(N):
+        E.assume(msy[i] == z3.Not(outb[i]))
+        mflat += [msy[i], amt[i]]
+    pf, pS, n1 = z3.Bool('o.peer_funder'), z3.Int('o.peer_S'), z3.Int('o.n1')
+    E.assume(pf == z3.Not(X.zbool(funder.t))); E.assume(pS == V.t * 1000 - Sv.t); E.assume(n1 == n + 1)
+
+    def cand_line(vals):
+        # vals: local funder V S n1 [pairs]*N cand_flag cand_amt addl f spike limd limv dust tag ; keep first n pairs then the candidate
+        local_, fnd, V_, S_, nn = vals[:5]
+        pairs = vals[5:5 + 2 * N]
+        cflag, camt = vals[5 + 2 * N:7 + 2 * N]
+        rest = vals[7 + 2 * N:]
+        k = nn - 1
+        return ' '.join(str(v) for v in [local_, fnd, V_, S_, nn] + pairs[:2 * k] + [cflag, camt] + rest)
+    b_peer = Binding('get_next_commitment_stats', [z3.BoolVal(False), pf, V.t, pS, n1] + mflat + [z3.BoolVal(False), a.t, z3.IntVal(0), fr.t, z3.BoolVal(False), z3.IntVal(0), z3.IntVal(0), hdust.t, tag],
+                     [z3.If(p_remote_ok, 0, 1), z3.If(p_remote_ok, p_remote_holder, 0), z3.If(p_remote_ok, p_remote_cp, 0), None], line_fn=cand_line,
+                     parse=lambda t: [int(t[0]), int(t[1]), int(t[2]), None])
+    b_peer_l = Binding('get_next_commitment_stats', [z3.BoolVal(True), pf, V.t, pS, n1] + mflat + [z3.BoolVal(False), a.t, z3.IntVal(0), fr.t, z3.BoolVal(False), z3.IntVal(0), z3.IntVal(0), cdust.t, tag],
+                       [z3.If(p_local_ok, 0, 1), None, None, None], line_fn=cand_line, parse=lambda t: [int(t[0]), None, None, None])
+    binds = [b_bal, b_peer, b_peer_l]
+    S.witness('C01.e.witness', E, pre + [in_range, n == N, a.t > 1000000, tag == 0])
+    S.no_panic('C01.e.balances_nopanic', E, pre, 'get_available_balances reaches no panic on any valid quiescent state', [b_bal], only=lambda p: p in bal_panics, split=case)
+    S.prove('C01.e.peer_accepts_amounts', E, pre + [in_range], z3.And(p_remote_ok, p_local_ok),
+            'for every amount inside the reported [minimum, limit] the peer\'s next-commitment computations (their view of our commitment and their own commitment, with the HTLC added) succeed: neither side overdraws, the funder covers the fee, each commitment keeps an output',
+            binds, bounds='N=%d pending HTLCs, all amounts/feerates/reserves/dust limits within Pre, 3 channel types x funder' % N, split=case, given_no_panic=True)
+    S.prove('C01.e.peer_reserve_respected', E, pre + [in_range, p_remote_ok], p_remote_cp >= res_peer_on_us * 1000,
+            'after adding an HTLC inside the limits our balance on our commitment (as the peer computes it) stays at or above the reserve the peer selected for us',
+            binds, split=case, given_no_panic=True)
+    S.prove('C01.e.peer_limits_respected', E, pre + [in_range], z3.And(out_count + 1 <= cv['counterparty_max_accepted_htlcs'].t,
+            out_total + a.t <= cv['counterparty_max_htlc_value_in_flight_msat'].t, a.t >= cv['counterparty_htlc_minimum_msat'].t),
+            'an HTLC inside the limits respects the peer\'s max_accepted_htlcs, max_htlc_value_in_flight and htlc_minimum',
+            [b_bal], split=case, given_no_panic=True)
+
+
+def dust_exposure_limit(S, D, N, prefix='C02.d'):
+    """every HTLC amount inside the reported send limits keeps the dust exposure of both commitments
+    within max_dust_htlc_exposure_msat (if it was within the limit before)"""
+    E = S.engine()
+    mem = {}
+    fb = S.fn('get_available_balances', nargs=9)
+    fs = S.fn('get_next_commitment_stats', nargs=11)
+    funder = E.sym('funder', 'bool')
+    V, Sv, fr, maxdust = E.sym('V', 'u64'), E.sym('S', 'u64'), E.sym('f', 'u32'), E.sym('maxdust', 'u64')
+    ct, tag = chan_type(E, mem)
+    n = z3.Int('n')
+    E.assume(z3.And(n >= 0, n <= N))
+    outb = [z3.Bool('h%d.outbound' % i) for i in range(N)]
+    amt = [E.int_sym('h%d.amount' % i, 'u64').t for i in range(N)]
+    HD = D.struct_fields('HTLCAmountDirection')
+
+    def dirs(extra=None):
+        el = [X.Adt('HTLCAmountDirection', {HD.index('outbound'): X.B(outb[i]), HD.index('amount_msat'): X.I(amt[i], 'u64')}) for i in range(N)]
+        pres = [n > i for i in range(N)]
+        if extra is not None:
+            el.append(extra)
+            pres.append(True)
+        c = E.new_cell()
+        mem[c] = X.Seq(el, None, 'HTLCAmountDirection', pres=pres)
+        return X.Ref(c)
+    CC = D.struct_fields('ChannelConstraints')
+    names = ['holder_dust_limit_satoshis', 'counterparty_selected_channel_reserve_satoshis', 'counterparty_dust_limit_satoshis',
+             'holder_selected_channel_reserve_satoshis', 'counterparty_htlc_minimum_msat', 'counterparty_max_htlc_value_in_flight_msat', 'counterparty_max_accepted_htlcs']
+    cv = {nm: E.sym('c.' + nm, 'u64') for nm in names}
+    cons = X.Adt('ChannelConstraints', {CC.index(nm): cv[nm] for nm in names})
+    none32 = X.En('Option', 0, {})
+    bal = S.call(E, fb, [funder, V, Sv, dirs(), fr, none32, maxdust, cons, ct], mem)
+    AB = D.struct_fields('AvailableBalances')
+    limit = bal.fs[AB.index('next_outbound_htlc_limit_msat')].t
+    minimum = bal.fs[AB.index('next_outbound_htlc_minimum_msat')].t
+    a = E.sym('a', 'u64')
+    NS = D.struct_fields('NextCommitmentStats')
+    hdust, cdust = cv['holder_dust_limit_satoshis'], cv['counterparty_dust_limit_satoshis']
+
+    def exposure(local, htlcs_ref, dust):
+        r = S.call(E, fs, [X.B(local), funder, V, Sv, htlcs_ref, X.I(0, 'usize'), fr, X.B(False), none32, dust, ct], mem)
+        return X.zint(r.d) == 0, r.vs[0][0].fs[NS.index('dust_exposure_msat')].t
+    cur_l_ok, cur_l = exposure(True, dirs(), hdust)
+    cur_r_ok, cur_r = exposure(False, dirs(), cdust)
+    cand = X.Adt('HTLCAmountDirection', {HD.index('outbound'): X.B(True), HD.index('amount_msat'): a})
+    new_l_ok, new_l = exposure(True, dirs(cand), hdust)
+    new_r_ok, new_r = exposure(False, dirs(cand), cdust)
+    out_total = sum([z3.If(z3.And(n > i, outb[i]), amt[i], 0) for i in range(N)])
+    in_total = sum([z3.If(z3.And(n > i, z3.Not(outb[i])), amt[i], 0) for i in range(N)])
+    pre = [V.t <= SUPPLY_SAT, V.t >= 1000, Sv.t <= V.t * 1000, z3.Implies(tag == 2, fr.t == 0),
+           hdust.t == 354, cdust.t >= 354, cdust.t <= 10000,
+           cv['counterparty_selected_channel_reserve_satoshis'].t <= V.t, cv['holder_selected_channel_reserve_satoshis'].t <= V.t,
+           cv['counterparty_max_accepted_htlcs'].t <= 483,
+           Sv.t - out_total >= 0, V.t * 1000 - Sv.t - in_total >= 0, cur_l_ok, cur_r_ok, cur_l <= maxdust.t, cur_r <= maxdust.t,
+           a.t >= minimum, a.t <= limit, a.t >= 1, new_l_ok, new_r_ok] + [x <= V.t * 1000 for x in amt]
+    case = [z3.And(tag == k, X.zbool(funder.t) == fb_) for k in range(3) for fb_ in (True, False)]
+    flat = []
+    sy = [z3.Bool('o.h%d.outbound' % i) for i in range(N)]
+    for i in range(N):
+        E.assume(sy[i] == outb[i])
+        flat += [sy[i], amt[i]]
+    clist = [cv[nm].t for nm in names]
+    b_bal = Binding('get_available_balances', [funder.t, V.t, Sv.t, n] + flat + [fr.t, z3.IntVal(0), z3.IntVal(0), maxdust.t] + clist + [tag],
+                    [bal.fs[AB.index(k)].t for k in ['inbound_capacity_msat', 'outbound_capacity_msat', 'next_outbound_htlc_limit_msat', 'next_outbound_htlc_minimum_msat', 'dust_exposure_msat', 'next_splice_out_maximum_sat']],
+                    line_fn=htlc_line(3, 3, N, None))
+    n1 = z3.Int('o.n1')
+    E.assume(n1 == n + 1)
+
+    def cand_line(vals):
+        local_, fnd, V_, S_, nn = vals[:5]
+        pairs = vals[5:5 + 2 * N]
+        cflag, camt = vals[5 + 2 * N:7 + 2 * N]
+        rest = vals[7 + 2 * N:]
+        return ' '.join(str(v) for v in [local_, fnd, V_, S_, nn] + pairs[:2 * (nn - 1)] + [cflag, camt] + rest)
+
+    def b_stats(local, dust, ok, expo):
+        return Binding('get_next_commitment_stats', [z3.BoolVal(local), funder.t, V.t, Sv.t, n1] + flat + [z3.BoolVal(True), a.t, z3.IntVal(0), fr.t, z3.BoolVal(False), z3.IntVal(0), z3.IntVal(0), dust.t, tag],
+                       [z3.If(ok, 0, 1), None, None, z3.If(ok, expo, 0)], line_fn=cand_line, parse=lambda t: [int(t[0]), None, None, int(t[3])])
+    binds = [b_bal, b_stats(True, hdust, new_l_ok, new_l), b_stats(False, cdust, new_r_ok, new_r)]
+    S.witness(prefix + '.witness', E, pre + [n == N, new_l > cur_l])
+    S.prove(prefix + '.dust_exposure_within_limit', E, pre, z3.And(new_l <= maxdust.t, new_r <= maxdust.t),
+            'an HTLC inside the reported send limits never pushes the dust exposure of our or the counterparty commitment above max_dust_htlc_exposure_msat (when it was within the limit before)',
+            binds, bounds='N=%d pending HTLCs, all amounts/feerates/dust limits within Pre, no dust-exposure limiting feerate' % N, split=case, given_no_panic=True)
